@@ -78,6 +78,7 @@ def run(rep, tier):
     rid = "C13.D1"
     rep.rule(rid, "free/clear/destructor wipes every secret-capable member on every path")
     field_cache = {}
+    o3_cache = {}
     for (b, lv), lr in zip(jobs, lowered):
         m = ir.Module.load(lr.json)
         cname = "%s/%s" % (b.cfg.name, lv)
@@ -141,6 +142,12 @@ def run(rep, tier):
                 if _rekeyed_with_constants(m, f):
                     rep.instance(rid, 1, {"config": cname, "function": f.name, "kind": "clear-by-constant-rekey"})
                     continue
+            if missing and lv == "O0" and _wiped_at_o3(b, f.name, set(required), o3_cache):
+                # the -O0 lowering hides the wipe behind a construct the summary does not follow (pointer tables, loops
+                # over members), but in the optimised code that is shipped every required byte is wiped on every path
+                rep.unproved_item(rid, "%s (%s): wipe of %d byte(s) not recognised in the -O0 IR; present on every path of "
+                                  "the -O3 IR" % (f.name, cname, len(missing)))
+                continue
             if missing:
                 names = []
                 for x in missing:
@@ -157,6 +164,19 @@ def run(rep, tier):
             rep.broken.append("%s: only %d obligations found in %s" % (rid, nobl, cname))
         rule_locals(rep, m, cname, req_by_type)
     rep.floor(rid, 25 * len(jobs))
+
+
+def _wiped_at_o3(b, fname, required, cache):
+    """does the function of that name in the -O3 lowering of the same configuration wipe every required byte of its
+    first parameter on every path?  (False if it has no out-of-line copy there)"""
+    if b.cfg.name not in cache:
+        lr = repo.lower(b, group="lib", level="O3", scev=True, tolerate=tuple(u.rel for u in b.group("lib", ("c++",))))
+        m3 = ir.Module.load(lr.json)
+        cache[b.cfg.name] = (m3, effects.wipe_summaries(m3, count_plain_stores=lambda f: not is_cpp_dtor(f.name)))
+    m3, summ3 = cache[b.cfg.name]
+    if fname not in summ3 or fname not in m3.funcs or m3.funcs[fname].decl:
+        return False
+    return required <= set(summ3[fname].must.get(0, frozenset()))
 
 
 def rule_locals(rep, m, cname, req_by_type):
